@@ -104,6 +104,16 @@ func processAllClients(op func(id int64, cs *clientState)) {
 	}
 }
 
+// visits the clients of one emulator instance (they share its data store set);
+// the registry itself is common to every emulator in the process
+func processClientsOf(dss *dataStoreSet, op func(id int64, cs *clientState)) {
+	processAllClients(func(id int64, cs *clientState) {
+		if cs.dss == dss {
+			op(id, cs)
+		}
+	})
+}
+
 func (cs *clientState) unregister() {
 	clientsMu.Lock()
 	defer clientsMu.Unlock()
